@@ -95,11 +95,11 @@ PROPS = {
     },
     'C09': {
         'native': ['c09_'],
-        'units': ['chain', 'driver', 'chainindex'],
+        'units': ['chain', 'driver', 'chainindex', 'merkle'],
         'kani_quick': [],
         'kani_thorough': ['utils_merkle_root_1_to_3', 'utils_merkle_root_4_5'],
         'trusted': [
-            'Block::compute_merkle_root == merkle_spec(txids in block order) -- iterator adapters, outside Verus; utils::merkle_root is checked by bounded Kani harnesses (lane K), never counted as proved',
+            'utils::merkle_root and Block::compute_merkle_root are under contract in unit merkle (level loop, odd-level duplication, iteration to one hash == merkle_spec of the txids in block order); the three iterator expressions inside them are idioms with ASSUMED contracts: I25 chunks(2).filter(len==2).map(hash of the pair).collect(), I26 [&a[..],&b[..]].concat(), I27 iter().map(|tx| tx.hash).collect() -- replayed on the real code by the bounded Kani harnesses utils_merkle_root_* (thorough tier) and lane N; unit chain uses compute_merkle_root through that contract',
             'SHA-256d collision resistance (soundness clause "any bit flip fails") is a cryptographic assumption, not a contract',
             'ChainIndex::new retains the record of height start-1: proved in unit chainindex (C02,C09:trimmed_index_keeps_start_minus_1_to_max_height)',
             'genesis hash constants per coin: lane K table check',
